@@ -392,6 +392,8 @@ func whyKind(why string) string {
 		return "unsupported-data_type"
 	case strings.HasPrefix(why, "shape declares more than"):
 		return "astronomic-extents"
+	case strings.HasPrefix(why, "payload-in-foreign-field"):
+		return "payload-in-foreign-field"
 	}
 	return "other"
 }
@@ -590,8 +592,33 @@ func Check12(c *Case, env *Env) []verdict {
 		return nil
 	}
 	if o.kind == "error" {
-		if nUnspec == 0 {
-			return []verdict{{sig: "wellformed-refused", what: fmt.Sprintf("every initializer is well-formed and opset is 13, but load failed: %v", o.err)}}
+		if nUnspec != 0 {
+			return nil
+		}
+		// Refused although every initializer is well-formed. C12 only objects if the refusal is about a WEIGHT: a
+		// tree may refuse a file for what else is in it (no graph, dangling names, a graph it considers unsorted ...).
+		// Attribution, two ways: (1) the tree's own tensor decoder, asked directly, refuses one of them; (2) the
+		// same file with every initializer replaced by a trivial float32 [1] tensor of the same name loads.
+		for _, name := range order {
+			e := byName[name]
+			if o2 := guard(func() (err error) { _, err = onnx.TensorFromProto(e.tp); return }); o2.kind != "ok" {
+				return []verdict{{sig: "wellformed-refused", what: fmt.Sprintf("every initializer is well-formed and opset is 13, but load failed (%v) and the tensor decoder refuses well-formed initializer %q: %s %v %s", o.err, name, o2.kind, o2.err, o2.pmsg)}}
+			}
+		}
+		if nWell > 0 {
+			twin := proto.Clone(mp).(*onnx.ModelProto)
+			for i, tp := range twin.GetGraph().GetInitializer() {
+				twin.Graph.Initializer[i] = &onnx.TensorProto{Name: tp.GetName(), DataType: int32(val.Float32), Dims: []int64{1}, FloatData: []float32{0}}
+			}
+			tb, err := proto.MarshalOptions{Deterministic: true}.Marshal(twin)
+			if err == nil {
+				if o3 := guard(func() (err error) { _, err = gonnx.NewModelFromBytes(tb); return }); o3.kind == "ok" {
+					return []verdict{{sig: "wellformed-refused", what: fmt.Sprintf("every initializer is well-formed and opset is 13, but load failed (%v); the same file with its initializers replaced by trivial ones loads, so the refusal is about the weights", o.err)}}
+				}
+			}
+		}
+		if st != nil {
+			st.Probe("refused_for_other_reasons_than_weights")
 		}
 		return nil
 	}
